@@ -33,7 +33,7 @@ def main(tier, seed, budget):
     rep = base.Reporter(PID)
     quick = tier == 'quick'
     crng = base.rng_for(seed, 'c03-configs')
-    cfgs, skipped = configs.pool(crng, n_sub=60 if quick else 300, max_n=5, cap=1000 if quick else 3000, deep=True)
+    cfgs, skipped = configs.pool(crng, n_sub=60 if quick else 300, max_n=5 if quick else 6, cap=1000 if quick else 3000, deep=True)
     hashseeds = [0] if quick else [0, 1, 2, 3]
     deadline = time.time() + (budget or (170 if quick else 1500))
     stats = dict(worlds=0, functions=0, merged=0, mapped=0, nan_chains=0, points=0, inconclusive=0, family_ok=0, family_inconclusive=0, rechecked_equal=0, rechecked_noise=0, round_checked=0, nontrivial=set(), events=0,
@@ -102,7 +102,7 @@ def main(tier, seed, budget):
         rule='one evaluation = one simulated 1-rank generation world (fault-free, virtual clock). Configurations: the six shipped bases at '
              'complexities 1..%d plus seeded sub-bases (unary subset of 9 operators, binary subset of 5) while the predicted function count stays '
              'under the cap. Non-trivial = at least one function was merged into a different unique function; distinct by (basis, complexity, hash seed).'
-             % 5,
+             % (5 if quick else 6),
         samples=samples, interleavings=1, configurations=len(cfgs), configurations_skipped_over_cap=len(skipped),
         configurations_not_run_budget=stats['not_run'], configurations_wall_timeout=stats['wall_timeouts'], sub_basis_configurations_not_generated=stats['not_generated'],
         real_time_cap_expiries=stats['real_cap_expiries'], functions_checked=stats['functions'], functions_merged=stats['merged'],
